@@ -165,12 +165,25 @@ Proof.
 Qed.
 
 (* ---------- phase 2 on the members ---------- *)
-Definition dash_free (it : citem) : bool := match it with IChar r s => plain r s | _ => true end.
+(* where a raw '-' is a plain member: first (nothing collected yet), right after a range, or last *)
+Definition only_classes (items : list citem) : bool :=
+  forallb (fun it => match it with IUni _ _ => true | _ => false end) items.
+
+Fixpoint dash_ok (free : bool) (items : list citem) : bool :=
+  match items with
+  | [] => true
+  | IChar r s :: rest => (plain r s || free || only_classes rest) && dash_ok false rest
+  | IRange _ _ _ _ :: rest => dash_ok true rest
+  | IUni _ _ :: rest => dash_ok free rest
+  end.
 
 Lemma extract_char q r esc l' wr cs rs :
-  ((r =? r_dash) && negb wr && negb (q && esc)) = false ->
+  ((r =? r_dash) && negb wr && negb (q && esc)) = false \/ cs = [] \/ l' = [] ->
   extract q ((r, esc) :: l') false wr cs rs = extract q l' false false (r :: cs) rs.
-Proof. intros H. cbn [extract]. destruct cs; destruct l'; try rewrite H; reflexivity. Qed.
+Proof.
+  intros H. cbn [extract]. destruct cs as [|c0 cs]; [reflexivity|]. destruct l' as [|x l']; [reflexivity|].
+  destruct H as [H|[H|H]]; try discriminate. rewrite H. reflexivity.
+Qed.
 
 Lemma plain_cond r s wr : plain r s = true -> ((r =? r_dash) && negb wr && negb (true && is_esc s)) = false.
 Proof.
@@ -178,25 +191,37 @@ Proof.
     destruct wr; reflexivity.
 Qed.
 
-Lemma extract_items items : forall wr cs rs,
-  forallb item_ok items = true -> forallb dash_free items = true ->
+Lemma only_classes_flat items : only_classes items = true -> flat items = [].
+Proof.
+  induction items as [|it items IH]; intros H; [reflexivity|].
+  cbn [only_classes forallb] in H. apply andb_true_iff in H as [Hi H]. destruct it; try discriminate.
+  unfold flat. cbn [map concat flat_item app]. apply IH. exact H.
+Qed.
+
+Lemma extract_items items : forall free wr cs rs,
+  forallb item_ok items = true -> dash_ok free items = true -> (free = true -> wr = true \/ cs = []) ->
   extract true (flat items) false wr cs rs = (rev cs ++ denote_chars items, rev rs ++ denote_ranges items).
 Proof.
-  induction items as [|it items IH]; intros wr cs rs Hok Hdf.
+  induction items as [|it items IH]; intros free wr cs rs Hok Hdf Hfree.
   - cbn. rewrite !app_nil_r. reflexivity.
-  - cbn [forallb] in Hok, Hdf. apply andb_true_iff in Hok as [Hit Hok]. apply andb_true_iff in Hdf as [Hd Hdf].
+  - cbn [forallb] in Hok. apply andb_true_iff in Hok as [Hit Hok].
     unfold flat, denote_chars, denote_ranges. cbn [map concat].
     fold (flat items) (denote_chars items) (denote_ranges items).
-    destruct it as [r s | lo sl hi sh | name braced].
-    + cbn [flat_item app]. cbn [dash_free] in Hd.
-      rewrite extract_char by (apply plain_cond; exact Hd).
-      rewrite IH by assumption. cbn [rev]. rewrite <- app_assoc. reflexivity.
+    destruct it as [r s | lo sl hi sh | name braced]; cbn [dash_ok] in Hdf.
+    + cbn [flat_item app]. apply andb_true_iff in Hdf as [Hd Hdf].
+      rewrite extract_char.
+      * rewrite (IH false) by (assumption || discriminate). cbn [rev]. rewrite <- app_assoc. reflexivity.
+      * apply orb_true_iff in Hd as [Hd|Hd]; [(apply orb_true_iff in Hd as [Hd|Hd]) | idtac].
+        -- left. apply plain_cond. exact Hd.
+        -- subst free. destruct (Hfree eq_refl) as [-> | ->]; [left | right; left; reflexivity].
+           destruct (r =? r_dash); reflexivity.
+        -- right; right. apply only_classes_flat. exact Hd.
     + cbn [flat_item app]. cbn [item_ok] in Hit.
       apply andb_true_iff in Hit as [Hit Hp2]. apply andb_true_iff in Hit as [Hit Hp1].
-      rewrite extract_char by (apply plain_cond; exact Hp1).
+      rewrite extract_char by (left; apply plain_cond; exact Hp1).
       cbn [extract]. replace (r_dash =? r_dash) with true by reflexivity. cbn [negb andb].
-      rewrite IH by assumption. cbn [rev]. rewrite <- !app_assoc. reflexivity.
-    + cbn [flat_item app]. rewrite IH by assumption. reflexivity.
+      rewrite (IH true) by (assumption || (intros _; left; reflexivity)). cbn [rev]. rewrite <- !app_assoc. reflexivity.
+    + cbn [flat_item app]. rewrite (IH free) by assumption. reflexivity.
 Qed.
 
 (* ---------- the whole reader ---------- *)
@@ -213,7 +238,7 @@ Definition lead_ok (items : list citem) (inv : bool) : bool :=
   inv || match concat (map print_item items) with r :: _ => negb (r =? r_caret) | [] => true end.
 
 Theorem parse_print_class items ic inv :
-  forallb item_ok items = true -> forallb dash_free items = true -> lead_ok items inv = true ->
+  forallb item_ok items = true -> dash_ok true items = true -> lead_ok items inv = true ->
   parse_class true (print_class items ic inv) =
   Some (mkClass (denote_chars items) (denote_ranges items) (denote_classes items) ic inv).
 Proof.
@@ -241,7 +266,7 @@ Proof.
   destruct inv.
   - (* inverted *)
     cbn [app]. replace (r_caret =? r_caret) with true by reflexivity.
-    rewrite Hscan. rewrite extract_items by assumption. reflexivity.
+    rewrite Hscan. rewrite (extract_items items true) by (assumption || (intros _; right; reflexivity)). reflexivity.
   - cbn [app]. unfold lead_ok in Hlead. cbn [orb] in Hlead. fold body in Hlead.
     destruct body as [|r body'] eqn:Eb.
     + (* nothing between the brackets *)
@@ -250,5 +275,5 @@ Proof.
       * exfalso. cbn [map concat] in Eb. cbn [forallb] in Hok. apply andb_true_iff in Hok as [Hit _].
         pose proof (cost_le_length it Hit) as Hc. apply app_eq_nil in Eb as [Ep _]. rewrite Ep in Hc. destruct it; cbn in Hc; lia.
     + apply negb_true_iff in Hlead. rewrite Hlead.
-      rewrite Hscan. rewrite extract_items by assumption. reflexivity.
+      rewrite Hscan. rewrite (extract_items items true) by (assumption || (intros _; right; reflexivity)). reflexivity.
 Qed.
